@@ -3,48 +3,37 @@
            transfer / restore / recreate bookkeeping), hand-transcribed from client_sub.go and client.go; tied to the
            implementation by the scripted-server correspondence (acknowledgement lists of every PublishRequest compared
            EXACTLY with the model; reconnect scenarios with scripted transfer / republish / recreate outcomes).
-   Both halves of the full statement are REFUTED (known findings, reproduced on the implementation on every run):
-   republished notifications are never acknowledged; a failed recreateSubscription is forgotten and the client still
-   reports Connected.  The strongest true statements are proved as C26_partial_*. *)
+   Acknowledgement half: FULL (C26_all_delivered_notifications_acked) since the fix that acknowledges republished
+   notifications.  Publishing resumes after every reconnect path (C26_publishing_resumed) since the fix for the
+   session-kept path.  Still REFUTED (known finding, reproduced on every run): a failed recreateSubscription is
+   forgotten and the client reports Connected (C26_refuted_failed_recreate_ignored). *)
 From Coq Require Import List Bool Arith.
 From Opcua Require Import Model.ClientAcks Proofs.ClientAcksProofs.
 Import ListNotations.
 
-(* what the client receives: publish responses and republished notifications *)
-Inductive event := EPublish (r : publish_resp) | ERepublish (sub seq : nat).
-
-Definition ev_step (pending : list ack) (e : event) : list ack * option ack :=
-  match e with EPublish r => publish_step pending r | ERepublish s q => republish_step pending s q end.
-
-(* acknowledgement lists sent after each event, and the notifications handed to the application *)
-Fixpoint ev_requests (pending : list ack) (h : list event) : list (list ack) :=
-  match h with [] => [pending] | e :: rest => pending :: ev_requests (fst (ev_step pending e)) rest end.
-Fixpoint ev_delivered (pending : list ack) (h : list event) : list ack :=
-  match h with
-  | [] => []
-  | e :: rest => match snd (ev_step pending e) with
-                 | Some a => a :: ev_delivered (fst (ev_step pending e)) rest
-                 | None => ev_delivered (fst (ev_step pending e)) rest
-                 end
-  end.
-
-(* full statement, acknowledgement half: every notification handed to the application is placed in an acknowledgement *)
+(* full statement, acknowledgement half: every notification handed to the application - received with Publish or
+   retransmitted with Republish - is placed in the acknowledgement list of a later PublishRequest *)
 Definition C26_statement_acks : Prop :=
   forall h a, In a (ev_delivered [] h) -> exists acks, In acks (ev_requests [] h) /\ In a acks.
 
-Theorem C26_refuted_republish_never_acked : ~ C26_statement_acks.
+Theorem C26_all_delivered_notifications_acked : C26_statement_acks.
+Proof. intros h a H. apply ev_delivered_placed. exact H. Qed.
+
+(* the defect that was fixed (known_findings.txt `fixed:`): republished notifications were never acknowledged *)
+Theorem C26_refuted_before_fix_republish_never_acked :
+  ~ (forall h a, In a (ev_delivered_gen false [] h) -> exists acks, In acks (ev_requests_gen false [] h) /\ In a acks).
 Proof.
   intros H. destruct (H [ERepublish 1 5] (1, 5)) as [acks [H1 H2]]; [left; reflexivity|].
   cbn in H1. destruct H1 as [<-|[<-|[]]]; destruct H2.
 Qed.
 
-(* partial: for notifications that arrive in publish responses (any history, any statuses, any result counts):
+(* in detail, for notifications that arrive in publish responses (any history, any statuses, any result counts):
    (1) each one is in the acknowledgement list of a later request — in fact the very next one;
    (2) nothing is acknowledged that was not received;
    (3) an acknowledgement the server answered with OK / SubscriptionIDInvalid / SequenceNumberUnknown is not retained,
        one answered with anything else is the only kind that is retried  — so with a server that answers OK, each
        notification is acknowledged exactly once. *)
-Theorem C26_partial_publish_notifications_acked :
+Theorem C26_publish_notifications_acked_exactly_once :
   (forall h pending a, In a (delivered pending h) -> exists acks, In acks (requests pending h) /\ In a acks)
   /\ (forall pending r, pr_known r = true -> pr_data r = true -> In (pr_sub r, pr_seq r) (fst (publish_step pending r)))
   /\ (forall h pending acks a, In acks (requests pending h) -> In a acks -> In a pending \/ In a (delivered pending h))
@@ -93,25 +82,26 @@ Example C26_partial_hypothesis_satisfiable :
   all_recreate_ok [ {| se_id := 1; se_items := 2; se_transfer_ok := false; se_republish_ok := false; se_create_ok := true; se_items_ok := true |} ] = true.
 Proof. reflexivity. Qed.
 
-(* full statement, third part: after a successful reconnect with subscriptions, publishing goes on *)
+(* full statement, third part: after a reconnect in which some subscription was restored (republished, or recreated
+   without error), publishing goes on - on every path *)
 Definition C26_statement_resumed : Prop :=
-  forall p es, es <> [] -> publishing_resumed p es = true.
+  forall p es e, In e es ->
+    snd (restore_one (match p with SessionKept => false | SessionLost tf => tf end)
+                     (match p with SessionKept => kept_env e | _ => e end)) = true ->
+    publishing_resumed p es = true.
 
-(* refuted: when the server still has the session (restoreSession succeeds) nothing is republished, activeSubs is 0 and
-   the publish loop, paused at the disconnect, is never resumed *)
-Theorem C26_refuted_session_kept_not_resumed : ~ C26_statement_resumed.
-Proof. intros H. specialize (H SessionKept [lost_sub]). cbn in H. assert (E : false = true) by (apply H; discriminate). discriminate. Qed.
-
-Theorem C26_partial_resumed_after_session_loss :
-  forall tf es, es <> [] -> all_recreate_ok es = true -> publishing_resumed (SessionLost tf) es = true.
+Theorem C26_publishing_resumed : C26_statement_resumed.
 Proof.
-  intros tf [|e es] Hne Hall; [congruence|]. unfold publishing_resumed. cbn [reconnect_subs snd fold_right].
-  cbn in Hall. apply andb_true_iff in Hall. destruct Hall as [He _]. apply andb_true_iff in He. destruct He as [Hc Hi].
-  assert (Ha : 1 <= active_one tf e).
-  { unfold active_one, recreate. rewrite Hc, Hi. destruct (tf || negb (se_transfer_ok e)); cbn; [apply le_n|].
-    destruct (se_republish_ok e); cbn; auto with arith. }
-  apply Nat.ltb_lt. eapply Nat.lt_le_trans; [apply Nat.lt_0_1|]. eapply Nat.le_trans; [exact Ha | apply Nat.le_add_r].
+  intros p es e Hin Hok. unfold publishing_resumed. apply Nat.ltb_lt. destruct p as [|tf]; cbn [reconnect_subs snd].
+  - apply (active_sum_ge false kept_env es e Hin). apply restored_counts. exact Hok.
+  - apply (active_sum_ge tf (fun x => x) es e Hin). apply restored_counts. exact Hok.
 Qed.
+
+(* the defect that was fixed: when the server still had the session (restoreSession succeeds) nothing was republished,
+   activeSubs was 0 and the publish loop, paused at the disconnect, was never resumed *)
+Theorem C26_refuted_before_fix_session_kept_not_resumed :
+  ~ (forall p es, es <> [] -> publishing_resumed_before_fix p es = true).
+Proof. intros H. specialize (H SessionKept [lost_sub]). cbn in H. assert (E : false = true) by (apply H; discriminate). discriminate. Qed.
 
 (* consecutive reconnects (any number, any path, any transfer / republish outcomes): when every recreate succeeds the
    subscription keeps its whole item table - every TimestampsToReturn group - and each recreating reconnect asks the
@@ -122,10 +112,11 @@ Theorem C26_partial_items_survive_consecutive_reconnects :
     forall r, In r (fst (rounds_items k p e groups)) -> r = total_items groups \/ r = 0.
 Proof. exact rounds_keep_items. Qed.
 
-Print Assumptions C26_refuted_republish_never_acked.
-Print Assumptions C26_partial_publish_notifications_acked.
+Print Assumptions C26_all_delivered_notifications_acked.
+Print Assumptions C26_refuted_before_fix_republish_never_acked.
+Print Assumptions C26_publish_notifications_acked_exactly_once.
 Print Assumptions C26_refuted_failed_recreate_ignored.
 Print Assumptions C26_partial_subscriptions_survive.
-Print Assumptions C26_refuted_session_kept_not_resumed.
-Print Assumptions C26_partial_resumed_after_session_loss.
+Print Assumptions C26_publishing_resumed.
+Print Assumptions C26_refuted_before_fix_session_kept_not_resumed.
 Print Assumptions C26_partial_items_survive_consecutive_reconnects.
